@@ -16,3 +16,16 @@ func VerifApplyFocus(prof *profile.Profile, numLabelUnits map[string]string, opt
 	cfg.PruneFrom = opts["prune_from"]
 	return applyFocus(prof, numLabelUnits, cfg, ui)
 }
+
+// VerifC06RawReport runs generateRawReport (driver.go) -- the caller of applyFocus for every
+// report -- with the given filter options, with and without relative_percentages, for the proto
+// command (addresses granularity: aggregation leaves the samples alone). prof is modified in place.
+func VerifC06RawReport(prof *profile.Profile, opts map[string]string, relative bool, ui plugin.UI) error {
+	cfg := defaultConfig()
+	cfg.Focus, cfg.Ignore, cfg.Hide, cfg.Show, cfg.ShowFrom = opts["focus"], opts["ignore"], opts["hide"], opts["show"], opts["show_from"]
+	cfg.TagFocus, cfg.TagIgnore, cfg.TagShow, cfg.TagHide = opts["tagfocus"], opts["tagignore"], opts["tagshow"], opts["taghide"]
+	cfg.PruneFrom = opts["prune_from"]
+	cfg.RelativePercentages = relative
+	_, _, err := generateRawReport(prof, []string{"proto"}, cfg, &plugin.Options{UI: ui})
+	return err
+}
